@@ -176,6 +176,10 @@ pub fn value_of_plain(s: &Suite, p: &Plaintext) -> Result<Val, String> {
 }
 
 pub fn value_of_ct(s: &Suite, c: &Ciphertext) -> Result<Val, String> {
+    value_of_ct_with(s, c, &s.decryptor)
+}
+
+pub fn value_of_ct_with(s: &Suite, c: &Ciphertext, decryptor: &Decryptor) -> Result<Val, String> {
     guarded(|| {
         let default_ntt = s.ps.scheme != SchemeType::BFV;
         let mut c = c.clone();
@@ -184,7 +188,7 @@ pub fn value_of_ct(s: &Suite, c: &Ciphertext) -> Result<Val, String> {
         } else if !c.is_ntt_form() && default_ntt {
             s.evaluator.transform_to_ntt_inplace(&mut c);
         }
-        let p = s.decryptor.decrypt_new(&c);
+        let p = decryptor.decrypt_new(&c);
         value_of_plain(s, &p).unwrap()
     })
 }
@@ -227,6 +231,38 @@ pub fn ct_bytes_eq(a: &Ciphertext, b: &Ciphertext) -> bool {
         && a.coeff_modulus_size() == b.coeff_modulus_size()
         && a.poly_modulus_degree() == b.poly_modulus_degree()
         && a.data() == b.data()
+}
+
+/// which observable part of two ciphertexts differs ("" when none)
+pub fn ct_diff(a: &Ciphertext, b: &Ciphertext) -> String {
+    let mut d = vec![];
+    if a.size() != b.size() {
+        d.push(format!("size {} vs {}", a.size(), b.size()));
+    }
+    if a.parms_id() != b.parms_id() {
+        d.push("parms id".to_string());
+    }
+    if a.is_ntt_form() != b.is_ntt_form() {
+        d.push("representation flag".to_string());
+    }
+    if a.scale().to_bits() != b.scale().to_bits() {
+        d.push(format!("scale {:e} vs {:e}", a.scale(), b.scale()));
+    }
+    if a.correction_factor() != b.correction_factor() {
+        d.push(format!("correction factor {} vs {}", a.correction_factor(), b.correction_factor()));
+    }
+    if a.coeff_modulus_size() != b.coeff_modulus_size() {
+        d.push(format!("coeff_modulus_size {} vs {}", a.coeff_modulus_size(), b.coeff_modulus_size()));
+    }
+    if a.poly_modulus_degree() != b.poly_modulus_degree() {
+        d.push("poly_modulus_degree".to_string());
+    }
+    if a.data().len() != b.data().len() {
+        d.push(format!("data length {} vs {}", a.data().len(), b.data().len()));
+    } else if a.data() != b.data() {
+        d.push(format!("{} data words", a.data().iter().zip(b.data().iter()).filter(|(x, y)| x != y).count()));
+    }
+    d.join(", ")
 }
 
 pub fn pt_bytes_eq(a: &Plaintext, b: &Plaintext) -> bool {
